@@ -9,7 +9,7 @@ CONSTANTS
   Cfgs <- CfgsOf
   Starts = {0, 3}
   FlagSet = {64}
-  PCaps = {0, 1, 2}
+  PCaps = {1, 2}
   Junk = 34
   EmitOn = TRUE
 INVARIANTS ResumeEqFresh Stable OffsSane Emit
